@@ -1,6 +1,6 @@
 """C03 - no API call sequence corrupts memory, invokes undefined behaviour or leaks.
 
-1. Coq: coq/Mem/*.v (ledger, checked arrays, pointer-level models of five pieces of allocation /
+1. Coq: coq/Mem/*.v (ledger, checked arrays, pointer-level models of six pieces of allocation /
    indexing logic) and coq/Properties_C03.v are rebuilt; every theorem is an obligation.
 2. Tie: the same op scripts run on the extracted models (ocaml/drv_mem) and on the C harness
    (harness/mem_wb.c white-box ops); outcome class and live-block counts are compared after
@@ -252,7 +252,7 @@ def run(ctx):
     ctx.trusted_base = [
         "Coq 8.16.1 kernel (coqc); vm_compute for the refutation witnesses and examples; no native_compute",
         "axioms: none (Print Assumptions: Closed under the global context for every theorem of Properties_C03.v)",
-        "hand-written pointer-level models coq/Mem/{PropList,DataAlloc,ParamSlots,AddArrays,HashTab}.v tied to the C code by running the same "
+        "hand-written pointer-level models coq/Mem/{PropList,DataAlloc,DataZ0,ParamSlots,AddArrays,HashTab}.v tied to the C code by running the same "
         "op scripts on the extracted models and on the white-box ops of harness/mem_harness.c",
         "everything not modelled at pointer level (the rest of the public API) is covered by sanitizer runs only (support): "
         "gcc ASan/UBSan/LSan, harness/allocwrap.c live-block accounting",
